@@ -85,7 +85,8 @@ impl SemanticState {
             path.display(),
             base_path.display()
         );
-        let text = std::fs::read_to_string(path)?;
+        let text = std::fs::read_to_string(path)
+            .with_context(|| format!("failed to read {}", path.display()))?;
         self.add_module(
             &parser::parse_str(&text).map_err(|e| {
                 let span = e.span();
